@@ -71,7 +71,13 @@ func checkLong(c Case, nz *noiser) error {
 	if reps < 1 {
 		reps = 1
 	}
+	src := append([]orb.Point{}, ls...) // ls itself (spare capacity with sentinels) is what the library gets
+	ls = orb.LineString(withSpare(src))
+	mls = orb.MultiLineString{ls[:mid+1], ls[mid:]}
 	for rep := 0; rep < reps; rep++ {
+		if err := untouched(ls, src, "a measure of the previous repetition"); err != nil {
+			return err
+		}
 		nz.call()
 		lh := geo.LengthHaversine(ls)
 		if !(math.Abs(lh-total) <= tolSum) {
@@ -122,7 +128,7 @@ func checkLong(c Case, nz *noiser) error {
 			}
 		}
 	}
-	return nil
+	return untouched(ls, src, "a measure")
 }
 
 // drawLong draws a long case; big selects the sizes used inside concurrent groups.
@@ -132,6 +138,9 @@ func drawLong(rt *rapid.T, big bool) *drawn {
 	start := orb.Point{genLon(rt, "lon"), rapid.Float64Range(-85, 85).Draw(rt, "lat")}
 	c.P1 = pp(start)
 	c.N = rapid.IntRange(100, 400).Draw(rt, "n")
+	if !big && rapid.IntRange(0, 39).Draw(rt, "rare large") == 23 { // rare: around 1024 and 4096 vertices
+		c.N = rapid.SampledFrom([]int{1022, 1023, 1024, 1025, 1026, 1027, 4094, 4095, 4096, 4097, 4098, 4099}).Draw(rt, "nlarge")
+	}
 	c.Reps = 1
 	c.Sweep = rapid.IntRange(0, 4).Draw(rt, "sweep")
 	if big {
@@ -170,7 +179,7 @@ func TestPropLongLine(t *testing.T) {
 // drawCase draws one case of any kind with the generators of the main properties; inside
 // concurrent groups long cases (the ones that last long enough to overlap) get half the weight.
 func drawCase(rt *rapid.T) *drawn {
-	switch rapid.SampledFrom([]string{"long", "long", "long", "long", "long", "long", "pair", "dest", "along", "box", "ring", "geom"}).Draw(rt, "kind") {
+	switch rapid.SampledFrom([]string{"long", "long", "long", "long", "long", "long", "pair", "dest", "along", "box", "ring", "geom", "alias"}).Draw(rt, "kind") {
 	case "pair":
 		return drawPair(rt)
 	case "dest":
@@ -183,6 +192,8 @@ func drawCase(rt *rapid.T) *drawn {
 		return drawRing(rt)
 	case "geom":
 		return drawCompose(rt)
+	case "alias":
+		return drawAlias(rt)
 	}
 	return drawLong(rt, true)
 }
